@@ -122,15 +122,15 @@ pub trait DNSIterable {
         if !self.parsed_packet().maybe_compressed {
             return Ok(());
         }
-        let (uncompressed, new_offset_next) = {
-            let ref_offset_next = self.offset_next();
+        let (uncompressed, new_offset) = {
+            let ref_offset = self.offset().ok_or(DSError::VoidRecord)?;
             let compressed = self.raw_mut().packet;
-            Compress::uncompress_with_previous_offset(compressed, ref_offset_next)?
+            Compress::uncompress_with_previous_offset(compressed, ref_offset)?
         };
         self.parsed_packet_mut().packet = Some(uncompressed);
-        self.set_offset_next(new_offset_next);
-        self.recompute_sections();
+        self.set_offset(new_offset);
         self.recompute_rr();
+        self.recompute_sections();
         Ok(())
     }
 }
